@@ -2,7 +2,7 @@
 from collections import defaultdict
 
 from db import Cfg, mir_callee, mir_calls, op_place, op_const_int
-from mirterm import Terms, show
+from mirterm import Terms, show, terms_of
 
 UNWRAPS = (
     "std::option::Option::<T>::unwrap", "std::option::Option::<T>::expect",
@@ -185,6 +185,7 @@ def reach_rule(db, rep, r, entries, scope_prefixes=None, allow=None, site_allow=
     missing = [e for e in entries if e not in db.mir]
     rep.anchor(not missing, "entry points %s" % missing)
     reach = g.reach(entries, stop=stop)
+    _tcache = {}
     nsites = 0
     used_allow = set()
     for fn in sorted(reach):
@@ -192,7 +193,7 @@ def reach_rule(db, rep, r, entries, scope_prefixes=None, allow=None, site_allow=
             continue
         rep.analysed(fn)
         body = db.mir[fn]
-        tm = Terms(body, db)
+        tm = terms_of(db, fn, _tcache)
         ss = sites_of(db, fn, tm=tm)
         if not ss:
             continue
